@@ -39,6 +39,13 @@ def run_case(case):
     learnable = bool(pairs) and max(pairs.values()) >= 2
     try:
         est = BPE(return_type="sequences", **kw)
+        if case.get("prior") is not None:
+            # the SAME instance has been fitted on another corpus and used before: a refit must leave nothing of it behind
+            try:
+                est.fit(list(case["prior"]))
+                est.transform(list(case["prior"]) + list(tests))
+            except Exception:
+                pass
         enc = est.fit_transform(list(corpus))
     except Exception as e:
         if not learnable:
@@ -163,6 +170,18 @@ def _triple_cases(tier):
                 yield {"corpus": list(t), "kw": kw, "tests": tests}
 
 
+def _refit_cases(tier):
+    """the estimator instance under test was fitted on `prior` and used for a transform before it is fitted on `corpus`"""
+    pool = [["abab"], ["aaaa", "ab"], ["bbb", "abb"], ["baba", "aab"], ["ab", "ba"], ["aabaab"]] + ([] if tier == "quick" else [["abcabc"], ["bbbb"], ["abab", "baba", "aa"]])
+    tests = sigma("ab", 3) + ["z", "abababab", "aabbaabb"]
+    for mvs in (1, 2, 10000):
+        for mto in (1, 2):
+            kw = {"max_vocab_size": mvs, "min_token_occurrence": mto, "max_char_code": 0}
+            for prior in pool:
+                for corpus in pool:
+                    yield {"corpus": corpus, "kw": kw, "tests": tests, "prior": prior}
+
+
 def subchecks(tier, seed):
     g1 = lambda: _cases(tier)
     g0 = lambda: _triple_cases(tier)
@@ -174,6 +193,9 @@ def subchecks(tier, seed):
             nontrivial_rule="a learned code appears in some encoding"),
         Sub("bpe_triples", "I", g0, run_case, total=sum(1 for _ in g0()),
             describe="all ordered triples over a pool of short and repetitive strings x max_vocab_size{2,10000} x min_token_occurrence{1,2}",
+            nontrivial_rule="as above"),
+        Sub("bpe_refit", "I", (lambda: _refit_cases(tier)), run_case, total=sum(1 for _ in _refit_cases(tier)),
+            describe="all ordered pairs (prior corpus, corpus) from a pool of corpora with different merge tables: the instance is fitted on the prior corpus and used for a transform, then fitted on the corpus - all assertions of the round-trip check apply to the second fit",
             nontrivial_rule="as above"),
         Sub("bpe_unicode", "I", g2, run_case, total=sum(1 for _ in g2()),
             describe="same with the alphabet {e-acute, euro sign} (characters above 'ascii'/97 limits) up to length 3", nontrivial_rule="as above"),
